@@ -217,6 +217,11 @@ Section XImpl.
     | _ => None
     end.
 
+  (* resolve_list names the element type through `&T`, whose
+     qualified_type_name() is the default "<type_name>!": the item hook always
+     sees a non-null element type, also for Vec<Option<T>> *)
+  Definition item_ret (t : ty) : ty := TNonNull (strip_nn t).
+
   (* is the ResolveInfo branch of add_set taken for this field *)
   Definition ext_branch (o : xocc) : bool := negb (is_nil ch) || xo_xd o.
 
@@ -234,120 +239,141 @@ Section XImpl.
     | IVal _ => r
     end.
 
-  Fixpoint x_set (n : nat) (st rt : name) (nid : N) (sels : list selection) (p : path) {struct n}
-    : outcome (xr ires) :=
+  (* one unfolding of each mutually recursive function, the recursive calls
+     abstracted (the fixpoints below tie the knot on the fuel) *)
+  Definition occs_t := name -> N -> list xocc -> path -> outcome (xr (list (name * value) + path)).
+  Definition field_t := name -> N -> xocc -> path -> outcome (xr ires).
+  Definition comp_t := bool -> name * option name -> ty -> outv -> list selection -> path -> outcome (xr ires).
+  Definition items_t := name * option name -> ty -> list outv -> N -> list selection -> path -> outcome (xr (list value + path)).
+  Definition set_t := name -> name -> N -> list selection -> path -> outcome (xr ires).
+
+  Definition set_step (n' : nat) (occs_f : occs_t) : set_t := fun st rt nid sels p =>
+    bindo (x_collect n' st rt sels) (fun occs0 =>
+    let occs := if q_per_occurrence q then occs0 else x_dedup occs0 in
+    bindo (occs_f rt nid occs p) (fun r =>
+      Ok (mkxr (match x_v r with
+                | inl l => IVal (create_value_object n' l)
+                | inr ep => IFail ep
+                end) (x_es r) (x_tr r) (x_ev r) (x_lf r) (x_ni r)))).
+
+  Definition occs_step (field_f : field_t) (occs_f : occs_t) (rt : name) (nid : N) (o : xocc) (r : list xocc) (p : path)
+    : outcome (xr (list (name * value) + path)) :=
+    bindo (field_f rt nid o p) (fun a =>
+      match x_v a with
+      | IFail ep => Ok (mkxr (inr ep) (x_es a) (x_tr a) (x_ev a) (x_lf a) (x_ni a))   (* try_join_all: the rest is dropped *)
+      | IVal v =>
+          bindo (occs_f rt nid r p) (fun b =>
+            Ok (mkxr (match x_v b with
+                      | inl l => inl ((o_key (xo o), v) :: l)
+                      | inr ep => inr ep
+                      end) (x_es a ++ x_es b) (x_tr a ++ x_tr b) (x_ev a ++ x_ev b)
+                     (x_lf a || x_lf b) (x_ni a + x_ni b)%nat))
+      end).
+
+  (* root.resolve_field(&ctx_field) of a derive-built object *)
+  Definition field_body (comp_f : comp_t) (nid : N) (o : xocc) (p' : path) (t : ty) : outcome (xr ires) :=
+    let nm := o_name (xo o) in
+    let ov := out w nid nm in
+    if resolver_fails S w t ov then
+      let ep := if o_iface (xo o) && q_iface_no_path q then [] else p' in
+      if q_field_err_parent q || is_nonnull t
+      then Ok (mkxr (IFail ep) [] [(nid, nm)] [] false O)
+      else Ok (mkxr (IVal VNull) [ep] [(nid, nm)] [] false O)
+    else bindo (comp_f true (nm, xo_alias o) t ov (o_sels (xo o)) p') (fun r =>
+           Ok (mkxr (x_v r) (x_es r) ((nid, nm) :: x_tr r) (x_ev r) (x_lf r) (x_ni r))).
+
+  Definition field_step (comp_f : comp_t) : field_t := fun rt nid o p =>
+    let nm := o_name (xo o) in
+    if name_eqb nm N_typename then Ok (mkxr (IVal (VStr (type_str S rt))) [] [] [] false O)
+    else match obj_field_ty S rt nm with
+         | None => Err 7
+         | Some t =>
+             let p' := p ++ [PF (o_key (xo o))] in
+             if ext_branch o then
+               match lookup_ret (xo_st o) nm with
+               | None => Ok (mkxr (IFail []) [] [] [] true O)      (* Cannot query field ".." on type ".." *)
+               | Some rty =>
+                   bindo (field_body comp_f nid o p' t)
+                         (fun r => Ok (hooked (HField p' (xo_st o) rty nm (xo_alias o)) r))
+               end
+             else field_body comp_f nid o p' t
+         end.
+
+  Definition comp_step (comp_f : comp_t) (items_f : items_t) (set_f : set_t) : comp_t := fun catch fa t ov sub p =>
+    match t with
+    | TNonNull t' => comp_f false fa t' ov sub p
+    | TList t' =>
+        match ov with
+        | OList l =>
+            bindo (items_f fa t' l 0 sub p) (fun r =>
+              Ok (xcatch catch (mkxr (match x_v r with inl l => IVal (VList l) | inr ep => IFail ep end)
+                                     (x_es r) (x_tr r) (x_ev r) (x_lf r) (x_ni r))))
+        | _ => Ok (mkxr (IVal VNull) [] [] [] false O)
+        end
+    | TNamed tn =>
+        match ov with
+        | ORef k =>
+            match node_ty w k with
+            | Some rt' =>
+                let st := match tdef_of S tn with Some (DObject _ _) => rt' | _ => tn end in
+                bindo (set_f st rt' k sub p) (fun r => Ok (xcatch catch r))
+            | None => Ok (mkxr (IVal VNull) [] [] [] false O)
+            end
+        | ONull => Ok (mkxr (IVal VNull) [] [] [] false O)
+        | _ => Ok (mkxr (IVal (leaf_value (q_nan_null q) ov)) [] [] [] false O)
+        end
+    end.
+
+  (* resolve_list: the item hook runs only when extensions are attached *)
+  Definition item_hooked (fa : name * option name) (t : ty) (p : path) (i : N) (a0 : xr ires) : xr ires :=
+    if is_nil ch then a0
+    else let r := hooked (HItem (p ++ [PI i]) (TList (item_ret t)) (item_ret t) (fst fa) (snd fa)) a0 in
+         mkxr (x_v r) (x_es r) (x_tr r) (x_ev r) (x_lf r) (Datatypes.S (x_ni r)).
+
+  Definition items_step (comp_f : comp_t) (items_f : items_t) (fa : name * option name) (t : ty)
+             (ov : outv) (r : list outv) (i : N) (sub : list selection) (p : path)
+    : outcome (xr (list value + path)) :=
+    bindo (comp_f true fa t ov sub (p ++ [PI i])) (fun a0 =>
+      let a := item_hooked fa t p i a0 in
+      match x_v a with
+      | IFail ep => Ok (mkxr (inr (if q_list_path q then p ++ [PI i] else ep)) (x_es a) (x_tr a) (x_ev a) (x_lf a) (x_ni a))
+      | IVal v =>
+          bindo (items_f fa t r (i + 1) sub p) (fun b =>
+            Ok (mkxr (match x_v b with inl l => inl (v :: l) | inr ep => inr ep end)
+                     (x_es a ++ x_es b) (x_tr a ++ x_tr b) (x_ev a ++ x_ev b) (x_lf a || x_lf b) (x_ni a + x_ni b)%nat))
+      end).
+
+  Fixpoint x_set (n : nat) : set_t :=
     match n with
-    | O => OutOfFuel
-    | Datatypes.S n' =>
-      bindo (x_collect n' st rt sels) (fun occs0 =>
-      let occs := if q_per_occurrence q then occs0 else x_dedup occs0 in
-      bindo (x_occs n' rt nid occs p) (fun r =>
-        Ok (mkxr (match x_v r with
-                  | inl l => IVal (create_value_object n' l)
-                  | inr ep => IFail ep
-                  end) (x_es r) (x_tr r) (x_ev r) (x_lf r) (x_ni r))))
+    | O => fun _ _ _ _ _ => OutOfFuel
+    | Datatypes.S n' => set_step n' (x_occs n')
     end
-  with x_occs (n : nat) (rt : name) (nid : N) (occs : list xocc) (p : path) {struct n}
-       : outcome (xr (list (name * value) + path)) :=
+  with x_occs (n : nat) : occs_t := fun rt nid occs p =>
     match occs with
     | [] => Ok (mkxr (inl []) [] [] [] false O)
     | o :: r =>
       match n with
       | O => OutOfFuel
-      | Datatypes.S n' =>
-        bindo (x_field n' rt nid o p) (fun a =>
-          match x_v a with
-          | IFail ep => Ok (mkxr (inr ep) (x_es a) (x_tr a) (x_ev a) (x_lf a) (x_ni a))   (* try_join_all: the rest is dropped *)
-          | IVal v =>
-              bindo (x_occs n' rt nid r p) (fun b =>
-                Ok (mkxr (match x_v b with
-                          | inl l => inl ((o_key (xo o), v) :: l)
-                          | inr ep => inr ep
-                          end) (x_es a ++ x_es b) (x_tr a ++ x_tr b) (x_ev a ++ x_ev b)
-                         (x_lf a || x_lf b) (x_ni a + x_ni b)%nat))
-          end)
+      | Datatypes.S n' => occs_step (x_field n') (x_occs n') rt nid o r p
       end
     end
-  with x_field (n : nat) (rt : name) (nid : N) (o : xocc) (p : path) {struct n} : outcome (xr ires) :=
+  with x_field (n : nat) : field_t :=
     match n with
-    | O => OutOfFuel
-    | Datatypes.S n' =>
-      let nm := o_name (xo o) in
-      if name_eqb nm N_typename then Ok (mkxr (IVal (VStr (type_str S rt))) [] [] [] false O)
-      else match obj_field_ty S rt nm with
-           | None => Err 7
-           | Some t =>
-               let ov := out w nid nm in
-               let p' := p ++ [PF (o_key (xo o))] in
-               (* root.resolve_field(&ctx_field) *)
-               let body : outcome (xr ires) :=
-                 if resolver_fails S w t ov then
-                   let ep := if o_iface (xo o) && q_iface_no_path q then [] else p' in
-                   if q_field_err_parent q || is_nonnull t
-                   then Ok (mkxr (IFail ep) [] [(nid, nm)] [] false O)
-                   else Ok (mkxr (IVal VNull) [ep] [(nid, nm)] [] false O)
-                 else bindo (x_comp n' true (nm, xo_alias o) t ov (o_sels (xo o)) p') (fun r =>
-                        Ok (mkxr (x_v r) (x_es r) ((nid, nm) :: x_tr r) (x_ev r) (x_lf r) (x_ni r))) in
-               if ext_branch o then
-                 match lookup_ret (xo_st o) nm with
-                 | None => Ok (mkxr (IFail []) [] [] [] true O)      (* Cannot query field ".." on type ".." *)
-                 | Some rty =>
-                     bindo body (fun r => Ok (hooked (HField p' (xo_st o) rty nm (xo_alias o)) r))
-                 end
-               else body
-           end
+    | O => fun _ _ _ _ => OutOfFuel
+    | Datatypes.S n' => field_step (x_comp n')
     end
-  with x_comp (n : nat) (catch : bool) (fa : name * option name) (t : ty) (ov : outv) (sub : list selection) (p : path) {struct n}
-       : outcome (xr ires) :=
+  with x_comp (n : nat) : comp_t :=
     match n with
-    | O => OutOfFuel
-    | Datatypes.S n' =>
-      match t with
-      | TNonNull t' => x_comp n' false fa t' ov sub p
-      | TList t' =>
-          match ov with
-          | OList l =>
-              bindo (x_items n' fa t' l 0 sub p) (fun r =>
-                Ok (xcatch catch (mkxr (match x_v r with inl l => IVal (VList l) | inr ep => IFail ep end)
-                                       (x_es r) (x_tr r) (x_ev r) (x_lf r) (x_ni r))))
-          | _ => Ok (mkxr (IVal VNull) [] [] [] false O)
-          end
-      | TNamed tn =>
-          match ov with
-          | ORef k =>
-              match node_ty w k with
-              | Some rt' =>
-                  let st := match tdef_of S tn with Some (DObject _ _) => rt' | _ => tn end in
-                  bindo (x_set n' st rt' k sub p) (fun r => Ok (xcatch catch r))
-              | None => Ok (mkxr (IVal VNull) [] [] [] false O)
-              end
-          | ONull => Ok (mkxr (IVal VNull) [] [] [] false O)
-          | _ => Ok (mkxr (IVal (leaf_value (q_nan_null q) ov)) [] [] [] false O)
-          end
-      end
+    | O => fun _ _ _ _ _ _ => OutOfFuel
+    | Datatypes.S n' => comp_step (x_comp n') (x_items n') (x_set n')
     end
-  with x_items (n : nat) (fa : name * option name) (t : ty) (l : list outv) (i : N) (sub : list selection) (p : path) {struct n}
-       : outcome (xr (list value + path)) :=
+  with x_items (n : nat) : items_t := fun fa t l i sub p =>
     match l with
     | [] => Ok (mkxr (inl []) [] [] [] false O)
     | ov :: r =>
       match n with
       | O => OutOfFuel
-      | Datatypes.S n' =>
-        bindo (x_comp n' true fa t ov sub (p ++ [PI i])) (fun a0 =>
-          (* resolve_list: the item hook runs only when extensions are attached *)
-          let a := if is_nil ch then a0
-                   else let h := HItem (p ++ [PI i]) (TList t) t
-                                       (fst fa) (snd fa) in
-                        let r := hooked h a0 in
-                        mkxr (x_v r) (x_es r) (x_tr r) (x_ev r) (x_lf r) (Datatypes.S (x_ni r)) in
-          match x_v a with
-          | IFail ep => Ok (mkxr (inr (if q_list_path q then p ++ [PI i] else ep)) (x_es a) (x_tr a) (x_ev a) (x_lf a) (x_ni a))
-          | IVal v =>
-              bindo (x_items n' fa t r (i + 1) sub p) (fun b =>
-                Ok (mkxr (match x_v b with inl l => inl (v :: l) | inr ep => inr ep end)
-                         (x_es a ++ x_es b) (x_tr a ++ x_tr b) (x_ev a ++ x_ev b) (x_lf a || x_lf b) (x_ni a + x_ni b)%nat))
-          end)
+      | Datatypes.S n' => items_step (x_comp n') (x_items n') fa t ov r i sub p
       end
     end.
 End XImpl.
@@ -573,17 +599,9 @@ Fixpoint phases_ok (i : N) (kids : list tree) : bool :=
       phases_ok (i + 1) r
   end.
 
-Fixpoint value_items (v : value) : nat :=
-  match v with
-  | VList l => (length l + fold_right (fun x acc => value_items x + acc) 0 l)%nat
-  | VObj l => fold_right (fun x acc => (value_items (snd x) + acc)%nat) 0%nat l
-  | _ => 0%nat
-  end.
-
 (* [resolvers] = number of resolver invocations of the request when every
-   hooked field runs a resolver (None in introspection-only execution);
-   [clean] = Some data when the response carries no error *)
-Definition lifecycle_ok (k : N) (evs : list ev) (resolvers : option nat) (clean : option value) : bool :=
+   hooked field runs a resolver (None in introspection-only execution) *)
+Definition lifecycle_ok (k : N) (evs : list ev) (resolvers : option nat) : bool :=
   if k =? 0 then is_nil evs
   else match parse_forest (Datatypes.S (length evs)) (ids k) evs with
        | Some ([Node HRequest _ kids], []) =>
@@ -591,10 +609,6 @@ Definition lifecycle_ok (k : N) (evs : list ev) (resolvers : option nat) (clean 
            match resolvers with
            | Some m => Nat.eqb (fold_right (fun x acc => (count_nodes is_field x + acc)%nat) 0%nat kids) m
            | None => true
-           end &&
-           match clean, resolvers with
-           | Some v, Some _ => Nat.eqb (fold_right (fun x acc => (count_nodes is_item x + acc)%nat) 0%nat kids) (value_items v)
-           | _, _ => true
            end
        | _ => false
        end.
@@ -630,36 +644,37 @@ Section Case.
 
   Definition xmodel (q : quirks) (k : N) := x_request q S w od opname vars (with_k cf k) n.
 
+  Definition nres (r : option response) : option nat :=
+    if c_intro cf then None
+    else match r with Some r => Some (length (rs_trace r)) | None => Some O end.
+
+  Definition judge (q : quirks) (m0 : option response) (im : impl) : N :=
+    match (if c_k cf =? 0 then xmodel q 0 else xmodel q (c_k cf)) with
+    | Ok (mk, hks, lf) =>
+        let transparent := oresp_same mk m0 in
+        let iem := resp_match (i_resp im) mk && resp_match (i_base im) m0 &&
+                   list_eqb ev_eqb (i_hooks im) hks && Bool.eqb (i_same im) transparent in
+        let mes := transparent && lifecycle_ok (c_k cf) hks (nres mk) in
+        let ies := i_same im &&
+                   lifecycle_ok (c_k cf) (i_hooks im)
+                                (if c_intro cf then None else Some (length (rs_trace (i_resp im)))) in
+        verdict iem mes ies (if lf then 1 else 0)
+    | _ => 9
+    end.
+
   (* the executor deviations in force (C01's findings) are inferred from the
      run without extensions, so that a repaired deviation does not disturb
      this check *)
-  Definition pick_q (base : response) : quirks :=
-    let fits q := match xmodel q 0 with Ok (m, _, _) => resp_match base m | _ => false end in
-    if fits quirks_today then quirks_today
-    else match filter fits (map without [1; 2; 3; 4; 5; 6; 7] ++ [quirks_none]) with
-         | q :: _ => q
-         | [] => quirks_today
-         end.
-
-  Definition clean_of (r : response) : option value :=
-    match rs_errors r with [] => Some (rs_data r) | _ => None end.
-
   Definition check_c30 (im : impl) : N :=
-    let q := pick_q (i_base im) in
-    match xmodel q (c_k cf), xmodel q 0 with
-    | Ok (mk, hks, lf), Ok (m0, _, _) =>
-        let transparent := oresp_same mk m0 in
-        let nres (r : option response) := if c_intro cf then None else
-                                            match r with Some r => Some (length (rs_trace r)) | None => Some O end in
-        let clean (r : option response) := match r with Some r => clean_of r | None => None end in
-        let iem := resp_match (i_resp im) mk && resp_match (i_base im) m0 &&
-                   list_eqb ev_eqb (i_hooks im) hks && Bool.eqb (i_same im) transparent in
-        let mes := transparent && lifecycle_ok (c_k cf) hks (nres mk) (clean mk) in
-        let ies := i_same im &&
-                   lifecycle_ok (c_k cf) (i_hooks im)
-                                (if c_intro cf then None else Some (length (rs_trace (i_resp im))))
-                                (clean_of (i_resp im)) in
-        verdict iem mes ies (if lf then 1 else 0)
-    | _, _ => 9
+    match xmodel quirks_today 0 with
+    | Ok (m0, _, _) =>
+        if resp_match (i_base im) m0 then judge quirks_today m0 im
+        else
+          let fits q := match xmodel q 0 with Ok (m, _, _) => resp_match (i_base im) m | _ => false end in
+          match filter fits (map without [1; 2; 3; 4; 5; 6; 7] ++ [quirks_none]) with
+          | q :: _ => match xmodel q 0 with Ok (m, _, _) => judge q m im | _ => 9 end
+          | [] => judge quirks_today m0 im
+          end
+    | _ => 9
     end.
 End Case.
